@@ -1,11 +1,137 @@
 import SqlObjVerif.Lemmas.Expr
-/-! # C03 — query expressions mean what was built (property theorems only) -/
+/-!
+# C03 — query expressions mean what was built (property theorems only)
+
+`e : BoolE` / `e : NumE` range over ALL well-typed source trees (any depth, operator-built and
+function-built nodes, constants on either side, negative constants, empty and NULL-containing IN
+lists); `d : String` over all dialect names; `P : Prec` over ALL assignments of binding powers to
+the binary operators (left and right), the prefix operators and `IN`; `r : Row` over all rows
+(columns hold `Option Int`).  `buildB` / `buildN` use the operator tables of `Extracted/Expr.lean`,
+so the statements are about what the current source emits.
+-/
 namespace SqlObjVerif.Expr
 
-/-- Every well-shaped piece of SQL expression syntax is recovered from its text by the reference
-    parser, whatever binding powers the dialect gives its operators. -/
-theorem C03_parse_rend (P : Prec) (t : T) (h : wf false t = true) (fuel : Nat) (hf : 6 * t.size ≤ fuel) :
-    parseExpr P fuel 0 (rend false t) = some (t, []) :=
-  parse_rend P t h fuel hf
+/-! ## no precedence capture -/
+
+/-- The reference parser recovers exactly the tree the constructors built from the rendered tokens,
+    for every dialect and under EVERY precedence / associativity table. -/
+theorem C03_parse_render (P : Prec) (d : String) (e : BoolE) :
+    parse P (render d false (buildB e)) = some (toT d (buildB e)) := by
+  rw [render_eq]; exact parse_rend_top P _ (wf_buildB d e)
+
+/-- the same for numeric expressions (arithmetic, unary minus / plus, negative constants) -/
+theorem C03_parse_render_num (P : Prec) (d : String) (e : NumE) :
+    parse P (render d false (buildN e)) = some (toT d (buildN e)) := by
+  rw [render_eq]; exact parse_rend_top P _ (wf_buildN d e)
+
+/-- and for ANY object graph of SQLOp / SQLModulo / SQLPrefix / Field / int / None nodes whose
+    lists occur only as the right operand of `IN` (not only those the typed constructors build) -/
+theorem C03_parse_render_nodes (P : Prec) (d : String) (n : Node) (h : wf false (toT d n) = true) :
+    parse P (render d false n) = some (toT d n) := by
+  rw [render_eq]; exact parse_rend_top P _ h
+
+example : parse ⟨fun _ => 1, fun _ => 1, fun _ => 0, 1⟩
+    (render "sqlite" false (buildB (.andOp (.notFn (.isin (.neg (.col 0)) [none, some (.const (-1))]))
+      (.cmp .lt (.const 2) (.ar .mod (.col 1) (.const 2)))))) =
+    some (.bin .and (.un .not (.isin (.un .neg (.col 0)) (.cons .null (.cons (.un .neg (.num 1)) .nil))))
+      (.bin .gt (.bin .mod (.col 1) (.num 2)) (.num 2))) := by decide
+
+/-- why the parentheses matter (non-vacuity of "every table"): the same tokens WITHOUT them are read
+    differently by two tables -/
+example : parse ⟨fun _ => 4, fun _ => 5, fun _ => 3, 4⟩ [.pre .not, .col 0, .op .eq, .num 1]
+      = some (.un .not (.bin .eq (.col 0) (.num 1)))
+    ∧ parse ⟨fun _ => 4, fun _ => 5, fun _ => 9, 4⟩ [.pre .not, .col 0, .op .eq, .num 1]
+      = some (.bin .eq (.un .not (.col 0)) (.num 1)) := by decide
+
+/-! ## the generated SQL denotes the source tree (three-valued logic kept) -/
+
+/-- SQLite-style value of the built syntax tree = three-valued value of the source tree -/
+theorem C03_tree_denotes (d : String) (e : BoolE) (r : Row) :
+    ev r (toT d (buildB e)) = .v ((evalB r e).map b2i) :=
+  ev_buildB r d e
+
+theorem C03_tree_denotes_num (d : String) (e : NumE) (r : Row) :
+    ev r (toT d (buildN e)) = .v (evalN r e) :=
+  ev_buildN r d e
+
+/-- denotation of parse(render(build e)) = denotation of e, for every table, dialect, tree and row -/
+theorem C03_denotation_preserved (P : Prec) (d : String) (e : BoolE) (r : Row) :
+    ∃ t, parse P (render d false (buildB e)) = some t ∧ ev r t = .v ((evalB r e).map b2i) :=
+  ⟨_, C03_parse_render P d e, ev_buildB r d e⟩
+
+/-- Used as a filter, the rendered expression (as read back by the parser) selects exactly the rows
+    on which the source tree is TRUE under three-valued logic (not false, not unknown). -/
+theorem C03_filter_sound (P : Prec) (d : String) (e : BoolE) (r : Row) :
+    selected P d e r = true ↔ evalB r e = some true := by
+  simp only [selected, C03_parse_render, selects, ev_buildB, truth_b2i]
+  simp
+
+example : evalB (fun c => if c = 0 then none else some 2)
+    (.notin (.col 1) [some (.const 1), none]) = none := by decide
+example : selected ⟨fun _ => 1, fun _ => 1, fun _ => 0, 1⟩ "mysql"
+    (.orOp (.eqNone (.col 0)) (.cmp .lt (.col 0) (.const 0))) (fun c => if c = 0 then none else some 2) = true := by
+  decide
+
+/-- `AND(e, e₁, …, eₙ)` (in whichever fold direction the source has) is the n-ary conjunction:
+    false if some argument is false, else unknown if some is unknown, else true; `OR` dually -/
+theorem C03_andN_sem (r : Row) (e : BoolE) (es : List BoolE) :
+    evalB r (andN e es) = all3 ((e :: es).map (evalB r)) :=
+  evalB_foldFn_and _ r e es
+
+theorem C03_orN_sem (r : Row) (e : BoolE) (es : List BoolE) :
+    evalB r (orN e es) = any3 ((e :: es).map (evalB r)) :=
+  evalB_foldFn_or _ r e es
+
+/-- the disjunction-of-equalities reading of `x IN (…)` used for the parsed text is the textbook
+    one used for source trees (empty list: false; NULL item: unknown unless matched) -/
+theorem C03_in_sem (x : Option Int) (ys : List (Option Int)) : in3 x ys = inSpec x ys :=
+  in3_eq_inSpec x ys
+
+/-! ## `== None` is IS NULL, never `= NULL` -/
+
+/-- `x == None` / `x != None` build exactly what `ISNULL(x)` / `ISNOTNULL(x)` build … -/
+theorem C03_eq_none_is_null (x : NumE) :
+    buildB (.eqNone x) = buildB (.isnull x) ∧ buildB (.neNone x) = buildB (.isnotnull x) := by
+  constructor <;> simp only [buildB] <;> split <;> rfl
+
+/-- … which renders `(<x>) IS NULL` / `(<x>) IS NOT NULL` in every dialect -/
+theorem C03_eq_none_renders_is_null (d : String) (x : NumE) :
+    render d false (buildB (.eqNone x)) =
+      Tok.lp :: (wrapS (render d false (buildN x)) ++ [Tok.op .is, Tok.null, Tok.rp]) ∧
+    render d false (buildB (.neNone x)) =
+      Tok.lp :: (wrapS (render d false (buildN x)) ++ [Tok.op .isNot, Tok.null, Tok.rp]) := by
+  rw [(C03_eq_none_is_null x).1, (C03_eq_none_is_null x).2]
+  simp [buildB, render, renderOp, wrapS, Extracted.isnullOp, Extracted.isnotnullOp]
+
+/-- In no rendering of any tree, in any dialect, is an (in)equality operator (`=`, `<>`, `!=`, `==`)
+    immediately followed by `NULL`. -/
+theorem C03_no_eq_null (d : String) (e : BoolE) : hasEqNull (render d false (buildB e)) = false := by
+  have h := hasEqNull_rend (toT d (buildB e)) false []
+  rw [List.append_nil] at h
+  rw [render_eq, h, eqNullT_buildB]; rfl
+
+example : hasEqNull [Tok.lp, Tok.col 0, Tok.op .eq, Tok.null, Tok.rp] = true := by decide
+
+/-! ## negative constants and unary minus do not capture -/
+
+/-- a negative constant is `-` followed by its magnitude, and as an operand of any operator it is
+    wrapped in its own parentheses -/
+theorem C03_negative_constant_wrapped (d : String) (n : Nat) :
+    wrapS (render d false (buildN (.const (-(n + 1 : Nat))))) =
+      [Tok.lp, Tok.pre .neg, Tok.num (n + 1), Tok.rp] := by
+  have h : (-((n + 1 : Nat) : Int)) < 0 := by omega
+  have h2 : (-((n + 1 : Nat) : Int)).natAbs = n + 1 := by omega
+  simp only [buildN, render, h, if_true, h2, wrapS]
+  rfl
+
+/-- whatever the binding power of unary minus, what is read back under a unary minus / plus is
+    exactly its operand, and the value is the negated value -/
+theorem C03_unary_minus_no_capture (P : Prec) (d : String) (x : NumE) (r : Row) :
+    parse P (render d false (buildN (.neg x))) = some (.un .neg (toT d (buildN x))) ∧
+    ev r (.un .neg (toT d (buildN x))) = .v ((evalN r x).map (fun a => -a)) := by
+  constructor
+  · rw [C03_parse_render_num]; rfl
+  · have := ev_buildN r d (.neg x)
+    simpa [buildN, toT, Extracted.negOp, evalN] using this
 
 end SqlObjVerif.Expr
